@@ -279,25 +279,34 @@ Definition wire_view (m : wmsg) : hview :=
      hv_infos := map minfo_of_bytes (len_fields 2 m) |}.
 
 (* message_info.length = object_length (only when it differs) *)
+Definition set_f3_field (l : N) (f : wfield) : wfield :=
+  match f with
+  | (k, WVarint _) => if k =? 3 then (3, WVarint l) else f
+  | _ => f
+  end.
 Definition set_f3 (l : N) (sub : wmsg) : wmsg :=
-  if has_varint 3 sub then
-    map (fun f => match f with (3, WVarint _) => (3, WVarint l) | _ => f end) sub
-  else sub ++ [(3, WVarint l)].
+  if has_varint 3 sub then map (set_f3_field l) sub else sub ++ [(3, WVarint l)].
 Definition set_len_bytes (l : N) (sb : bytes) : bytes :=
   match parse_wire sb with
   | None => sb
   | Some sub => if mi_length (minfo_of_sub sub) =? l then sb else ser_wire (set_f3 l sub)
   end.
+(* a message_infos entry of the header: field 2, length-delimited *)
+Definition is_info (f : wfield) : option bytes :=
+  match f with
+  | (k, WLen sb) => if k =? 2 then Some sb else None
+  | _ => None
+  end.
 (* zip(self.objects, self.header.message_infos) *)
 Fixpoint set_lengths (m : wmsg) (ls : list N) : wmsg :=
   match m with
   | [] => []
-  | (2, WLen sb) :: r =>
-    match ls with
-    | [] => m
-    | l :: ls' => (2, WLen (set_len_bytes l sb)) :: set_lengths r ls'
+  | f :: r =>
+    match is_info f, ls with
+    | Some sb, l :: ls' => (2, WLen (set_len_bytes l sb)) :: set_lengths r ls'
+    | Some _, [] => m
+    | None, _ => f :: set_lengths r ls
     end
-  | f :: r => f :: set_lengths r ls
   end.
 
 (* IWAArchiveSegment.to_buffer *)
